@@ -427,8 +427,12 @@ def write_evidence(ctx, violations, obligations, discharged, checker_cmd, known_
         'wall_s': round(time.time() - ctx.t0, 2),
         'violations': violations,
     }
-    os.makedirs(os.path.join(VERIF, 'evidence'), exist_ok=True)
-    with open(os.path.join(VERIF, 'evidence', ctx.prop + '.json'), 'w') as f:
+    # evidence/ describes /repo itself; a run against a scratch copy (VERIF_REPO) must not overwrite it
+    evdir = os.path.join(VERIF, 'evidence')
+    if os.path.abspath(REPO) != '/repo':
+        evdir = os.path.join(VERIF, 'replays', '_scratch_evidence')
+    os.makedirs(evdir, exist_ok=True)
+    with open(os.path.join(evdir, ctx.prop + '.json'), 'w') as f:
         json.dump(ev, f, indent=1, default=repr, ensure_ascii=True)
 
 
